@@ -183,11 +183,29 @@ async def _worker(sim, sc, out):
         evs = sorted((e for e in rec.events if e.id == jid and e.node == "w"),
                      key=lambda e: (e.end_seq if e.op == "consume" else e.seq))
         dels = [e for e in evs if e.op == "consume" and e.outcome == "returned"]
+        # the time-to-live counts from the latest *scheduling*: the enqueue, or the latest reschedule requeue
+        # (counter reset to 0); retries keep the clock. Taken from the recorder, not from the message's own timestamp.
+        sched = [enq[jid]["us"]] if jid in enq else []
+        sched_ev = [(e.us, e.end_seq) for e in evs if e.op == "requeue" and e.depth == 0 and e.args["params"]["tried"] == 0
+                    and e.end_seq is not None]
+
+        def latest_scheduling(before_seq):
+            t = sched[0] if sched else 0
+            for (u0, s1) in sched_ev:
+                if s1 < before_seq:
+                    t = max(t, u0)
+            return t
+
         for i, d in enumerate(dels):
             p = d.result["params"]
             if p["ttl"] is None:
                 continue
             E = sim.clock.dt_to_us(datetime.fromisoformat(p["ts"])) + int(p["ttl"] * 1e6)
+            E_ref = latest_scheduling(d.end_seq) + int(p["ttl"] * 1e6)
+            if abs(E - E_ref) > 1_200_000 and j.get("by_s"):
+                V.append(violation("ttl-clock", f"C12/{b}/worker/ttl-not-counted-from-latest-scheduling", id=jid,
+                                   off_by_us=E - E_ref))
+                break
             nxt = dels[i + 1].end_seq if i + 1 < len(dels) else 1 << 60
             started = [e for e in evs if e.op == "actor_start" and d.end_seq < e.seq < nxt]
             if d.end_us > E:
@@ -204,8 +222,8 @@ async def _worker(sim, sc, out):
             pp = next(p for p in ps if p["place"] == "dead")["params"]
             expired = False
             if pp and pp["ttl"] is not None:
-                E = sim.clock.dt_to_us(datetime.fromisoformat(pp["ts"])) + int(pp["ttl"] * 1e6)
-                expired = sim.clock.us > E
+                E = latest_scheduling(1 << 60) + int(pp["ttl"] * 1e6)
+                expired = sim.clock.us > E - 1_200_000
                 crossed = crossed or expired
             if not nacked and not expired:
                 V.append(violation("live-message-dead", f"C12/{b}/worker/live-message-dead-lettered", id=jid, params=pp))
